@@ -11,6 +11,7 @@
 //	RETNIL            return nil               return
 //	OVER<<x>>OVER     x                        (x).All()
 //	RETX<<e>>RETX     return e                 _ = (e); return
+//	COPKG·            "" / co. / xco.          (only in programs without a reference rendering)
 //	§                 program prefix           program prefix
 package render
 
@@ -110,6 +111,9 @@ func Co(neutral, prefix string, st Style) string {
 		case strings.HasPrefix(s[i:], "}GEN"):
 			b.WriteString("}")
 			i += 4
+		case strings.HasPrefix(s[i:], "COPKG·"):
+			b.WriteString(p)
+			i += len("COPKG·")
 		case strings.HasPrefix(s[i:], "YIELD("):
 			b.WriteString(p + "Yield(")
 			i += 6
